@@ -608,12 +608,15 @@ static void log_reset(void) {
   fflush(NULL); LOGOFF = lseek(LOGFD, 0, SEEK_END);
   if (LOGOFF > (1 << 20)) { if (ftruncate(LOGFD, 0)) {} LOGOFF = 0; }
 }
-/* what was written since log_reset (newlines become blanks); 0 when nothing */
+/* what was written since log_reset (newlines become blanks; the END of it when it does not fit); 0 when nothing */
 static int log_read(char * b, size_t n) {
   b[0] = 0; if (LOGFD < 0) return 0;
   fflush(NULL);
-  if (lseek(LOGFD, 0, SEEK_END) <= LOGOFF) return 0;
-  ssize_t r = pread(LOGFD, b, n - 1, LOGOFF); if (r < 0) r = 0; b[r] = 0;
+  off_t end = lseek(LOGFD, 0, SEEK_END);
+  if (end <= LOGOFF) return 0;
+  off_t from = end - LOGOFF > (off_t)(n - 1) ? end - (off_t)(n - 1) : LOGOFF;
+  ssize_t r = pread(LOGFD, b, n - 1, from); if (r < 0) r = 0; b[r] = 0;
+  while (r > 0 && b[r - 1] == '\n') b[--r] = 0;
   for (ssize_t i = 0; i < r; i++) if (b[i] == '\n') b[i] = ' ';
   return (int)r;
 }
@@ -693,7 +696,7 @@ static void enumerate_program(int pi, const pos_t * rs) {
 	  if (!sim_run(&p, TIMINGS[tmi], W, imp, MAXSTEAL, &s, preflen) || !oracle_compute(&p, &s, &o)) {
 	    SLOT->engine_error = 1; fprintf(stderr, "engine error: P=%s W=%d\n", p.str, W); return;
 	  }
-	  SLOT->schedules++;
+	  int ran = 0;
 	  CASE.p = &p; CASE.s = &s; CASE.o = &o; CASE.tm = TIMINGS[tmi]; CASE.tmi = tmi; CASE.imp = imp; CASE.W = W;
 	  SLOT->pos.p = pi; SLOT->pos.tmi = tmi; SLOT->pos.imp = imp; SLOT->pos.W = W; SLOT->pos.nch = s.nch; memcpy(SLOT->pos.ch, s.ch, sizeof s.ch);
 	  int nf0 = resuming ? rs->nf : 1, oi0 = resuming ? rs->oi + 1 : 0;
@@ -704,6 +707,7 @@ static void enumerate_program(int pi, const pos_t * rs) {
 	    if (oi0 == 0) HAVE_BASE = 0;
 	    for (int oi = oi0; oi < NOPTS; oi++) {
 	      if (component_skip(nf, oi)) continue;
+	      ran = 1;
 	      CASE.nf = nf; CASE.oi = oi; CASE.opt = OPTS[oi];
 	      SLOT->pos.nf = nf; SLOT->pos.oi = oi;
 	      long c0 = N_CALLS;
@@ -714,7 +718,7 @@ static void enumerate_program(int pi, const pos_t * rs) {
 	    }
 	  }
 	  resuming = 0;
-	  SLOT->groups++;
+	  SLOT->groups++; SLOT->schedules += ran || count_only;
 	  if (!sched_next(&s, &preflen)) break;
 	}
       }
